@@ -68,3 +68,24 @@ Proof.
   destruct (afi_window_sound co cs nm Hn true text pat lo hi Hp (fun _ => Ha) H) as [_ [_ G]]. exact G.
 Qed.
 Print Assumptions repr_keeps_matches.
+
+(* "Consequently, filtering any sub-list of the input yields the full result restricted to that sub-list, in the same
+   relative order."  Given purity (match verdict and sort keys are a function `info` of the LINE only — the theorems above
+   and C02/C03), for any keep-mask over input positions (duplicate lines are fine), any chunking of both inputs (incl.
+   --tail-style partial first chunks), any partition counts, tac / sort flags and query kinds: the positions printed for
+   the sub-list, translated back to positions of the full list, are exactly the full result filtered by the mask. *)
+From Fzf Require Import RankSpec RankModel MergerModel RankProofs MergerProofs SublistProofs.
+
+Theorem sublist_restriction : forall (L : Type) (info : L -> option RankModel.points) (keep : Z -> bool) (full : list L)
+    (chunk_size : Z) (chunks_full chunks_sub : list (list (item L))) (k k' : Z) (m_sort tac pat_empty pat_sortable : bool),
+  1 <= k -> 1 <= k' -> 0 < chunk_size ->
+  MergerProofs.chunks_wf (item L) chunk_size chunks_full -> concat chunks_full = number L full ->
+  MergerProofs.chunks_wf (item L) chunk_size chunks_sub -> concat chunks_sub = number L (sub_lines L keep full) ->
+  exists out_full out_sub,
+    MergerModel.filter_output (item L) RankModel.result (s_mk L) (MergerProofs.cless tac) chunk_size (s_mt L info)
+                              k' m_sort tac pat_empty pat_sortable chunks_full = Ok out_full /\
+    MergerModel.filter_output (item L) RankModel.result (s_mk L) (MergerProofs.cless tac) chunk_size (s_mt L info)
+                              k m_sort tac pat_empty pat_sortable chunks_sub = Ok out_sub /\
+    map (fun r => pos_of (positions L keep full) (RankModel.r_index r)) out_sub = filter keep (map RankModel.r_index out_full).
+Proof. exact sublist_restriction_proof. Qed.
+Print Assumptions sublist_restriction.
